@@ -629,7 +629,12 @@ def world_digest(w):
         ep = w.endpoints[name]
         h.update(name.encode() + (b'1' if ep.alive else b'0'))
         for raw, req, err in ep.kernel.log:
-            h.update(raw + bytes([err & 0xFF]))
+            if isinstance(req, dict) and 'attrs_raw' in req:
+                # netlink attributes are a set: their order on the wire means nothing to the kernel
+                h.update(repr(sorted((k, repr(v)) for k, v in req.items() if k not in ('attrs_raw', 'algs', 'tmpls'))).encode())
+                h.update(repr(sorted(req['attrs_raw'])).encode() + bytes([err & 0xFF]))
+            else:
+                h.update(raw + bytes([err & 0xFF]))
         if ep.alive:
             for s in ep.controller.ike_sas:
                 h.update(bytes(s.my_spi) + bytes(s.peer_spi) + bytes([int(s.state)]))
